@@ -26,3 +26,12 @@ func (s *Server) VerifRestartFSChain() error { return s.restartFSChain() }
 
 // VerifTimers renders the epoch timers state.
 func (s *Server) VerifTimers() string { return s.epochTimers.VerifDump() }
+
+var verifNNSHook func(x *neoFSNNS, name string, args []any) ([]any, bool)
+
+// VerifSetNNSCheck answers neoFSNNS.CheckDomainRecord (an NNS contract read) from the harness.
+func VerifSetNNSCheck(f func(domain, record string) error) {
+	verifNNSHook = func(_ *neoFSNNS, _ string, a []any) ([]any, bool) {
+		return []any{f(a[0].(string), a[1].(string))}, true
+	}
+}
